@@ -270,6 +270,41 @@ func (g *G) RelPath(base xref.NodeSet, maxSteps, predDepth int) *xast.Path {
 
 // FlatPath draws a flat path in the sense of C12: child/attribute/self steps
 // from one context node, or a single descendant step (//n, descendant::n, .//n).
+// FlatArg draws a flat path to be used as a function argument or comparison operand.
+// One time in four its last step carries predicates from the fragments C02/C03 claim: a
+// position as the FIRST predicate of a child step, and/or a boolean predicate. A step
+// that filters is a step that moves the evaluation context about; what stands next to it
+// (the following argument, the other operand) must not notice. Descendant forms keep no
+// predicate (their order under a predicate is claimed by nothing).
+func (g *G) FlatArg(base xref.NodeSet) *xast.Path {
+	p := g.FlatPath(base)
+	if !g.chance(3, "argpreds") {
+		return p
+	}
+	for _, sx := range p.Steps {
+		if _, ok := sx.(xast.DSlash); ok {
+			return p
+		}
+		if st, ok := sx.(*xast.Step); ok && st.Axis == "descendant" {
+			return p
+		}
+	}
+	st, ok := p.Steps[len(p.Steps)-1].(*xast.Step)
+	if !ok {
+		return p
+	}
+	if st.Axis == "child" && rapid.Bool().Draw(g.T, "argpos") {
+		st.Preds = append(st.Preds, g.PosPred())
+	}
+	if len(st.Preds) == 0 || rapid.Bool().Draw(g.T, "argbool") {
+		st.Preds = append(st.Preds, g.BoolPred(nil, 0))
+	}
+	if st.Abbr && (st.Axis == "self" || st.Axis == "parent") {
+		st.Abbr = false
+	}
+	return p
+}
+
 func (g *G) FlatPath(base xref.NodeSet) *xast.Path {
 	if g.chance(2, "flatdesc") {
 		// //name, //p:name, //*, //text(), //node() ... : any node test
